@@ -130,7 +130,7 @@ def r1_len_accounting(ctx):
             effs = path_effects(f, path)
             inc = _count(effs, lambda e: e[0] == 'w' and e[1] == 'inc' and e[2] == lf)
             oth = _count(effs, lambda e: e[0] == 'w' and e[1] in ('dec', 'set') and e[2] == lf)
-            fg = _count(effs, lambda e: _is_call(e, 'std::mem::forget'))
+            fg = _count(effs, lambda e: _is_call(e, 'std::mem::forget', 'std::mem::ManuallyDrop::new'))
             ctx.check(inc == 1 and oth == 0 and fg == 1, 'list-add:path-imbalance',
                       'DualLinkedList::add: a returning path leaks (links) %d node(s) but increments %s %d time(s)' % (fg, lf, inc),
                       f.where_path(path))
